@@ -1,7 +1,134 @@
-(* Props/C11.v — provisional (being built) *)
-From Xpl Require Import C11.Model.
+(* Props/C11.v — property C11: wrapping a model (TorchWrapper, NumPy callable, predict_proba) changes no result.
+   Only statements, each closed by [exact]; proofs live in C11/Proofs.v. *)
+From Xpl Require Import C11.Spec C11.Proofs.
 Close Scope Qc_scope. Open Scope nat_scope.
+
+(* np.moveaxis with the axes the wrapper uses is the transposition (0,3,1,2), resp. (0,2,3,1) *)
 Theorem C11_moveaxis_orders :
   moveaxis_order 4 [3; 1; 2] [1; 2; 3] = [0; 3; 1; 2] /\ moveaxis_order 4 [1; 2; 3] [3; 1; 2] = [0; 2; 3; 1].
-Proof. split; reflexivity. Qed.
+Proof. exact moveaxis_orders. Qed.
 Print Assumptions C11_moveaxis_orders.
+
+(* explicit index formulas, every N, H, W, C (H <> W included): on flat row-major data, element (b, ch, i, j) of
+   np.moveaxis(x, [3,1,2], [1,2,3]) is element (b, i, j, ch) of x, and conversely for the gradient's move *)
+Theorem C11_moveaxis_explicit :
+  forall n h w c x,
+    moveaxis [n; h; w; c] [3; 1; 2] [1; 2; 3] x = nhwc_to_nchw n h w c x /\
+    moveaxis [n; c; h; w] [1; 2; 3] [3; 1; 2] x = nchw_to_nhwc n h w c x.
+Proof. exact moveaxis_explicit. Qed.
+Print Assumptions C11_moveaxis_explicit.
+
+(* NHWC -> NCHW -> NHWC (and NCHW -> NHWC -> NCHW) is the identity *)
+Theorem C11_moveaxis_roundtrip :
+  forall n h w c x, length x = n * h * w * c ->
+    moveaxis [n; c; h; w] [1; 2; 3] [3; 1; 2] (moveaxis [n; h; w; c] [3; 1; 2] [1; 2; 3] x) = x /\
+    moveaxis [n; h; w; c] [3; 1; 2] [1; 2; 3] (moveaxis [n; c; h; w] [1; 2; 3] [3; 1; 2] x) = x.
+Proof. exact moveaxis_roundtrip. Qed.
+Print Assumptions C11_moveaxis_roundtrip.
+
+(* <P^-1 g, x> = <g, P x>: the move applied to the gradient is the adjoint of the move applied to the input,
+   i.e. the chain rule for f o P *)
+Theorem C11_moveaxis_adjoint :
+  forall n h w c g x, length x = n * h * w * c -> length g = n * h * w * c ->
+    dot (moveaxis [n; c; h; w] [1; 2; 3] [3; 1; 2] g) x = dot g (moveaxis [n; h; w; c] [3; 1; 2] [1; 2; 3] x).
+Proof. exact moveaxis_adjoint. Qed.
+Print Assumptions C11_moveaxis_adjoint.
+
+(* one sample: reading positions in closed form, inverse of each other *)
+Theorem C11_sample_positions :
+  forall h w c x g,
+    nhwc_to_nchw 1 h w c x = map (fun q => nthq x (first_reads h w c q)) (seq 0 (c * (h * w))) /\
+    nchw_to_nhwc 1 h w c g = map (fun p => nthq g (last_reads h w c p)) (seq 0 (h * (w * c))) /\
+    (forall p, p < h * w * c -> first_reads h w c (last_reads h w c p) = p) /\
+    (forall q, q < c * (h * w) -> last_reads h w c (first_reads h w c q) = q).
+Proof. exact sample_positions. Qed.
+Print Assumptions C11_sample_positions.
+
+(* for EVERY torch module (f = forward on one sample, vjp = torch.autograd's input gradient, row-wise) and every batch:
+   through the wrapper with conversion, outputs are f(channel-first x) and gradients are the module's own gradients
+   moved back to channel-last positions, sample by sample *)
+Theorem C11_wrapper_is_native :
+  forall (f : list Qc -> list Qc) (vjp : list Qc -> list Qc -> list Qc) h w c xs ts,
+    (forall x t, length (vjp x t) = length x) -> 1 <= h -> 1 <= w -> 1 <= c -> length ts = length xs ->
+    (forall x, In x xs -> length x = h * w * c) ->
+    wrapper_call f true [length xs; h; w; c] (concat xs) = map (native_out f true h w c) xs /\
+    wrapper_gradients vjp true [length xs; h; w; c] xs ts = map2 (native_grad vjp true h w c) xs ts.
+Proof. exact wrapper_is_native. Qed.
+Print Assumptions C11_wrapper_is_native.
+
+(* without conversion (dense modules, or as requested) the wrapper is transparent for any input shape *)
+Theorem C11_wrapper_is_native_no_conversion :
+  forall (f : list Qc -> list Qc) (vjp : list Qc -> list Qc -> list Qc) tail xs ts,
+    (forall x t, length (vjp x t) = length x) -> 1 <= prod tail -> (forall x, In x xs -> length x = prod tail) ->
+    wrapper_call f false (length xs :: tail) (concat xs) = map f xs /\
+    wrapper_gradients vjp false (length xs :: tail) xs ts = map2 vjp xs ts.
+Proof. exact wrapper_is_native_no_conversion. Qed.
+Print Assumptions C11_wrapper_is_native_no_conversion.
+
+(* F-quad written on channel-first data: value and gradient through the wrapper are those of the channel-last family
+   member whose parameters are the channel-first ones moved back (linear and quadratic weights re-indexed, cross terms
+   re-addressed) *)
+Theorem C11_wrapper_grad_correct :
+  forall ks h w c xs ts, 1 <= h -> 1 <= w -> 1 <= c -> length ts = length xs ->
+    (forall x, In x xs -> length x = h * w * c) -> (forall k, In k ks -> class_ok (h * w * c) k) ->
+    fq_outputs ks true [length xs; h; w; c] (concat xs) = map (fquad_out (map (moved_class h w c) ks)) xs /\
+    fq_scores ks true [length xs; h; w; c] xs ts = map2 (fquad (map (moved_class h w c) ks)) xs ts /\
+    fq_gradients ks true [length xs; h; w; c] xs ts = map2 (fquad_grad (map (moved_class h w c) ks)) xs ts.
+Proof. exact wrapper_grad_correct. Qed.
+Print Assumptions C11_wrapper_grad_correct.
+
+Theorem C11_wrapper_grad_correct_no_conversion :
+  forall ks tail xs ts, 1 <= prod tail -> (forall x, In x xs -> length x = prod tail) ->
+    fq_outputs ks false (length xs :: tail) (concat xs) = map (fquad_out ks) xs /\
+    fq_gradients ks false (length xs :: tail) xs ts = map2 (fquad_grad ks) xs ts.
+Proof. exact wrapper_grad_correct_no_conversion. Qed.
+Print Assumptions C11_wrapper_grad_correct_no_conversion.
+
+(* conversion iff requested, or, when nothing is requested, iff a Conv2d occurs among module.modules() *)
+Theorem C11_channel_first_rule :
+  forall req mods,
+    init_channel_first req mods = channel_first_spec req mods /\
+    (init_channel_first None mods = true <-> In LConv2d mods).
+Proof. exact channel_first_rule_full. Qed.
+Print Assumptions C11_channel_first_rule.
+
+(* a NumPy callable / predict_proba object is scored like a Keras model, sum_c pred_c * target_c per sample, for 2-D
+   predictions and for predictions whose batch axis is squeezed away on a batch of one sample, for every batch size
+   (batches of one sample and remainder batches included) *)
+Theorem C11_callable_equals_keras :
+  forall (f : list Qc -> list Qc) K bs inputs targets,
+    1 <= length inputs -> targets_ok K inputs targets -> (forall x, length (f x) = K) -> bs_ok bs ->
+    batch_one_hot_callable (model_2d f) bs inputs targets = Some (keras_scores f inputs targets) /\
+    batch_one_hot_callable (model_squeezed f) bs inputs targets = Some (keras_scores f inputs targets).
+Proof. exact callable_equals_keras. Qed.
+Print Assumptions C11_callable_equals_keras.
+
+(* 1-D predictions of a single-output model, batch size 1 and > 1: f1(x) * t per sample *)
+Theorem C11_callable_1d_equals_keras :
+  forall (f1 : list Qc -> Qc) bs inputs targets,
+    1 <= length inputs -> targets_ok 1 inputs targets -> bs_ok bs ->
+    batch_one_hot_callable (model_1d f1) bs inputs targets = Some (keras_scores (fun x => [f1 x]) inputs targets) /\
+    keras_scores (fun x => [f1 x]) inputs targets = map2 (fun x t => (f1 x * nthq t 0 + 0)%Qc) inputs targets.
+Proof. exact callable_1d_equals_keras. Qed.
+Print Assumptions C11_callable_1d_equals_keras.
+
+(* non-vacuity: a batch of two 2x3x2 images (H <> W) meets the hypotheses; position (ch=1, i=1, j=2) of the
+   channel-first sample reads channel-last position 11; the three conversions of a concrete sample; a module list with
+   a nested Conv2d converts, a dense one does not, a request overrides; 1-D predictions on a batch of one and of two *)
+Example C11_nonvacuous :
+  first_reads 2 3 2 11 = 11 /\ first_reads 2 3 2 1 = 2 /\ last_reads 2 3 2 2 = 1 /\
+  moveaxis [1; 2; 3; 2] [3; 1; 2] [1; 2; 3] (map qn (seq 0 12)) = map qn [0; 2; 4; 6; 8; 10; 1; 3; 5; 7; 9; 11] /\
+  init_channel_first None [LContainer; LContainer; LConv2d; LLinear] = true /\
+  init_channel_first None [LContainer; LLinear; LConv1d; LConvTranspose2d] = false /\
+  init_channel_first (Some false) [LConv2d] = false /\
+  class_ok (2 * 3 * 2) {| qb := q 1 1; qW := map qn (seq 0 12); qV := map qn (seq 0 12); qX := [(0, 11, q 1 2)] |} /\
+  targets_ok 1 [[q 1 2]; [q 3 2]] [[q 2 1]; [q 5 1]] /\ bs_ok (Some 1) /\
+  one_hot_callable (model_1d (fun x => nthq x 0)) [[q 1 2]] [[q 2 1]] = Some [q 1 1] /\
+  one_hot_callable (model_1d (fun x => nthq x 0)) [[q 1 2]; [q 3 2]] [[q 2 1]; [q 5 1]] = Some [q 1 1; q 15 2].
+Proof.
+  split; [reflexivity|]. split; [reflexivity|]. split; [reflexivity|]. split; [vm_compute; reflexivity|].
+  split; [reflexivity|]. split; [reflexivity|]. split; [reflexivity|].
+  split. { split; [reflexivity|]. split; [reflexivity|]. intros a b v [E|[]]. inversion E; subst. cbn. lia. }
+  split. { split; [reflexivity|]. intros t [<-|[<-|[]]]; reflexivity. }
+  split; [cbn; lia|]. split; vm_compute; reflexivity.
+Qed.
